@@ -24,8 +24,8 @@ CLAIMS = {
         "(clang typed AST -> Lean, C integer semantics explicit) on every run: acceptance only inside t0-skew<=t<=t0+min(ttl,max-ttl) over the integers (unconditionally, "
         "including 32-bit wrap, which only rejects more), exact window/EXPIRED/REWOUND verdicts where no wrap occurs, decode-side TTL cap, encode-side TTL resolution "
         "(0->default, >max->max), soft errors keep the payload (no reset). Tie: translation validation of the real static kernels on a boundary lattice (~30k tuples) and "
-        "end-to-end encode/decode with the clock interposed, byte-exact against the Lean credential model.",
-   note=COMMON_NOTE + "The --max-ttl option parser's range test (1..3600) is assumed (constant MUNGE_MAXIMUM_TTL is generated); time() is the only clock source and is interposed.",
+        "end-to-end encode/decode (retry 0/1/5) with the clock interposed, byte-exact against the Lean credential model; the real option processing for every --max-ttl.",
+   note=COMMON_NOTE + "The --max-ttl option reaches conf->max_ttl through the real conf.c (create_conf/parse_cmdline/process_conf in harness/h_conf.c): every value 1..3600 and malformed values are run, not proved; conf_fields_as_modelled ties the configuration fields dec.c/enc.c consult to the model's; time() is the only clock source and is interposed.",
    technique="Lean 4 theorems (omega over if-trees) on kernels translated from the C source each run + translation validation + end-to-end differential run",
    ref="5/C06"),
  "C04": dict(
@@ -33,16 +33,16 @@ CLAIMS = {
         "UNAUTHORIZED; root not exempt with the compile-time flag as generated) and over the translated dec_process_msg orchestration (authorisation runs after MAC+unpack and before "
         "the time and replay stages; a refusal never reaches replay insert/remove and is reset before the single send). Tie: kernel validated on the full cross product of boundary ids; "
         "end-to-end histories (unauthorised attempts x {fresh, expired, rewound, already decoded} then an authorised attempt) on the real pipeline, byte-exact against the model.",
-   note=COMMON_NOTE + "Group membership is a parameter here (C17 proves it equals the databases); SO_PEERCRED is interposed.",
+   note=COMMON_NOTE + "Group membership is a parameter of the theorems (C17 proves it equals the databases; the real gids_is_member is also streamed here); got_root_auth after the REAL create_conf/parse_cmdline is checked under two heap fills (h_conf.c); SO_PEERCRED is interposed.",
    technique="Lean 4 theorems on kernels/orchestration translated from the C source each run + translation validation + history-based differential run",
    ref="5/C04"),
 
  "C16": dict(
-   text="Proof. 19 Lean theorems over kernels that tools/gen/g_path.py re-translates from path.c, conf.c, random.c, lock.c and munged.c on every run (per-directory decision of path_is_secure, "
+   text="Proof. 20 Lean theorems over kernels that tools/gen/g_path.py re-translates from path.c, conf.c, random.c, lock.c and munged.c on every run (per-directory decision of path_is_secure, "
         "_conf_open_keyfile, _random_read_seed, the creation sites with their mode and umask expressions, which failures are fatal vs forceable, the arguments start-up passes): the "
         "per-directory predicate equals the statement's condition; path_is_secure is the conjunction over EVERY ancestor up to / (any depth; the string-stripping loop is proved to enumerate "
         "exactly the ancestors); key file must be regular, non-symlink, owned by euid, no group/other r/w; refusal without --force; for all 512 umasks socket=0777, lock=0200 exactly, "
-        "pid within 0644, log within 0640, seed within 0600; a seed failing vetting is not read and is unlinked. Tie: real path.c/conf.c/random.c/munged.c/lock.c functions under "
+        "pid within 0644, log within 0640, seed within 0600; a seed failing vetting is not read and is unlinked; the seed is written to a FRESH file (unlink immediately before the creating open, for every input). Tie: real path.c/conf.c/random.c/munged.c/lock.c functions under "
         "ASan with interposed lstat/realpath/geteuid on ~24k scripted stat tables + ~3.6k real-file-system cases + 14 runs of the real munged binary (umask sweep, insecure trees), "
         "judged by an independent python oracle.",
    note=COMMON_NOTE + "Linux mode & ~umask semantics and the 0666/0777 defaults of fopen/bind are model assumptions validated by the real-FS stream; the harness runs as root so permission failures of open/unlink are not exercised; path_dirname/path_is_accessible are covered end-to-end only.",
@@ -66,7 +66,9 @@ CLAIMS = {
         "for EVERY byte string, type code 0..255 and malloc behaviour unpack reads only inside the buffer and writes each variable field only inside its destination (decidable `guarded` "
         "predicate on the generated lists + generic proof); header strictness; the recv length gate precedes any allocation/read; send gate; set_err first-wins; reset. Tie: real m_msg.c "
         "(#included) under ASan/UBSan diffed against the model on ~19k ops (round trips, every truncation, every length class, all 256 type codes, garbage) and judged by an independent "
-        "python reference codec that also checks that members the packet never reaches stay untouched.",
+        "python reference codec that also checks that members the packet never reaches stay untouched. Bridge (Props/WireCred.lean, 12 theorems): the credential model's request parser and reply "
+        "builders (Cred.recvMsg / encRsp / decRsp, used by C01-C10) equal Wire.recv / Wire.send over the generated lists for every byte string. Client side: ~700 scripted replies (well-formed of "
+        "each type incl. combinations a daemon never sends, every length field lying, truncations, wrong type) through the REAL munge_decode / munge_encode under ASan.",
    note=COMMON_NOTE + "_pack/_unpack/_alloc/_copy themselves and the step order inside recv/send are hand-modelled and tied by correspondence and the chain-order theorem; a socket is modelled as bytes followed by EOF. Found F2 and F8 (fixed).",
    technique="Lean 4 theorems (generic interpreter proofs + decide on field lists regenerated from the C source) + differential correspondence under ASan + python reference codec",
    ref="5/C14"),
@@ -76,7 +78,7 @@ CLAIMS = {
         "restriction), salt/IV, identity and clock: a successful encode followed by a decode by an authorised client inside the window on a daemon that has not seen it returns the byte-identical "
         "payload and length, the encoder's uid/gid, restrictions, resolved cipher/MAC/zip, capped TTL, encode time, origin address; option resolution (defaults, empty payload => no zip, TTL); "
         "requests above MUNGE_MAXIMUM_REQ_LEN are refused with no reply. PrimLaws is proved for the toy instance (Lemmas/ToyLaws.lean). Tie per run: ~800 encode+decode pairs byte-exact (toy), "
-        "~400 on the real primitives by oracle incl. 64 KiB payloads, five size-limit requests around 1 MiB.",
+        "~400 on the real primitives by oracle incl. 64 KiB payloads, compressed / incompressible payloads at the top of the accepted range, the same round trip through the real libmunge, five size-limit requests around 1 MiB.",
    note=COMMON_NOTE + "PrimLaws for OpenSSL/zlib/bzlib is validated by the real-primitive stream, not proved; libmunge's client-side size check is not modelled (daemon-side gate is).",
    technique="Lean 4 theorems (parse∘print = id chains, generic in the primitives) + kernels regenerated from source + byte-exact differential correspondence under ASan",
    ref="5/C01"),
@@ -85,7 +87,7 @@ CLAIMS = {
         "removal succeeded and MAC = mac(macKey, OUTER || decrypted still-compressed INNER) compared over the whole digest; a MAC mismatch or any parse failure before the MAC is a hard error whose "
         "message carries no payload, uid, gid, ttl, times (and leaves the replay state unchanged); under the NAMED hypothesis Unforgeable every accepted credential's MAC'd content was emitted by a "
         "key holder; under KeySeparation a credential MAC'd under another key is never accepted. Tie per run: ~3k byte-level edits (bit flips, every truncation, extensions, block swaps, splices, "
-        "header rewrites, armor variants, foreign key) on toy (byte-exact) and real builds (oracle: hard error, sanitised reply).",
+        "header rewrites, armor variants, foreign key; seed credentials include pure-padding last blocks) on toy (byte-exact) and real builds (oracle: hard error, sanitised reply), plus 70-200 kB credentials altered around 2^16 and in the tail on the real primitives.",
    note=COMMON_NOTE + "Cryptographic strength is assumed only through the explicit hypotheses Unforgeable / KeySeparation of reject_altered / reject_foreign_key; the logic (MAC coverage, order of checks, full-length comparison, sanitised reply) is what is proved.",
    technique="Lean 4 theorems over the credential model with named cryptographic hypotheses + differential correspondence on exhaustive byte-level edits",
    ref="5/C02"),
@@ -94,7 +96,7 @@ CLAIMS = {
         "documented offset for every request; requests differing only in identity-looking fields get the same reply bytes; changing the peer changes exactly those 8 bytes; no peer => no credential; "
         "the identity reaching the authorisation kernel is the peer's and the middle stages preserve it. Tie per run: getsockopt(SO_PEERCRED) interposed over 200 (euid, egid) pairs incl. 0, >= 2^31, "
         "0xFFFFFFFE, ordinary and crafted ENC_REQs (uid/gid-looking payloads, trailing fields), credentials read back by an independent python v3 reference (real build) and byte-exact vs model (toy).",
-   note=COMMON_NOTE + "SO_PEERCRED semantics (the kernel's attestation) are trusted; the real auth_recv.c runs with getsockopt interposed.",
+   note=COMMON_NOTE + "SO_PEERCRED semantics (the kernel's attestation) are trusted; the real auth_recv.c runs with getsockopt interposed. The real-primitive stream also runs with the benchmark flag set, conf_fields_as_modelled pins the configuration fields enc.c consults, and the client-level stream checks what the real munge_decode hands to the application (identities up to 2^32-2).",
    technique="Lean 4 non-interference theorems over the credential model + differential correspondence with interposed peer credentials + independent format reference",
    ref="5/C03"),
  "C08": dict(
@@ -104,7 +106,7 @@ CLAIMS = {
         "request never changes the replay state and a successful one adds exactly its key; every transaction ends in a well-formed reply or a closed connection. Tie per run: ~2.5k hostile requests "
         "through the real _job_exec under ASan/UBSan/LSan (all header fields x classes, all message types with typed bodies, every truncation of requests and of 5 credentials, bit flips, junk, "
         "validly-MAC'd forged interiors incl. corrupt and lying zip streams) byte-exact vs model incl. per-request leak flag, the same on the OpenSSL build, canary request every 50.",
-   note=COMMON_NOTE + "No allocation ledger theorem (leak-freedom is LeakSanitizer per request); stalls/timeouts are not exercised; OpenSSL/zlib internals outside. Found F1 F2 F4 F8 F9 (fixed). Misaligned zip-header access (zip.c) is UB on strict-alignment targets; alignment checking is disabled in the harness and the observation is recorded in DESIGN.",
+   note=COMMON_NOTE + "No allocation ledger theorem (leak-freedom is LeakSanitizer per request). Stalls/timeouts: sub-check Fd - the timed I/O routines of fd.c are translated (Gen/Fd.lean) and 27 theorems (Props/C08Fd.lean) bound every wait by the remaining time + 1998 us, give count-or-error returns, no busy spin and exact bytes for read/write/iovec, tied by harness/h_fd.c (real fd.c over scripted poll/read/write/clock, ~4k ops); a watchdog and a per-request close() count guard the request harness. OpenSSL/zlib internals outside. Found F1 F2 F4 F8 F9 (fixed). Misaligned zip-header access (zip.c) is UB on strict-alignment targets; alignment checking is disabled in the harness and the observation is recorded in DESIGN.",
    technique="Lean 4 theorems on the parsers' bounds logic + byte-exact differential correspondence under ASan/UBSan/LSan on hostile streams",
    ref="5/C08"),
  "C09": dict(
@@ -112,7 +114,7 @@ CLAIMS = {
         "than expired/rewound/replayed sends exactly errorOnlyRsp(retry, code, text) - payload length 0, ids at the ANY sentinel, cipher/MAC/zip/TTL/times/address zero, no realm/address/payload bytes; "
         "a failed encode likewise; for an encrypted credential a padding-removal failure and a MAC mismatch produce THE SAME reply bytes (EMUNGE_CRED_INVALID, default text) and the MAC is still "
         "computed on the padding-failure path. Tie per run: ~850 ops - control decodes and hard failures with full reply bytes vs the error-only form, every byte of the last cipher block flipped, "
-        "previous block, MAC field, removed/added block on AES/Blowfish/CAST credentials (toy byte-exact; OpenSSL by oracle: all replies of one credential identical).",
+        "previous block, MAC field, removed/added whole and partial blocks on AES/Blowfish/CAST credentials (three with a pure-padding last block) (toy byte-exact; OpenSSL by oracle: all replies of one credential identical).",
    note=COMMON_NOTE + "Timing indistinguishability is not a property of the model and is not claimed.",
    technique="Lean 4 theorems over the credential model and the translated orchestration + byte-exact differential correspondence on failure replies",
    ref="5/C09"),
@@ -129,7 +131,7 @@ CLAIMS = {
         "roll-back condition of dec_process_msg are regenerated from the C source every run: the hash table refines a finite set for every comparator/hash/size/op sequence; replay_insert returns 1 "
         "iff present; failed decodes never consume; distinct keys never interfere; the generated roll-back condition implies 'this request inserted'; hence for every sequential history and EVERY "
         "interleaving of request steps at most one first-attempt SUCCESS per credential while its record is live (retry-flagged requests are the documented exception). Tie per run: ~66k ops on the "
-        "real hash.c/replay.c/dec.c tail (adversarial keys, bucket collisions, equal MAC different expiry) vs model, python-set oracle; thorough: 16-thread insert races.",
+        "real hash.c/replay.c/dec.c tail (adversarial keys, bucket collisions, equal MAC different expiry) vs model, python-set oracle; groups of credentials minted by identical requests in one second (real enc.c) each decode once; thorough: 16-thread insert races.",
    note=COMMON_NOTE + "The mutex's exclusion is trusted (structural lock/unlock certificates are generated and checked); distinctness of credentials is up to the 16 kept MAC bytes + expiry second. Found F7 (fixed).",
    technique="Lean 4 refinement + invariant-over-interleavings theorems on a model regenerated from the C source + differential correspondence",
    ref="5/C05"),
@@ -145,8 +147,10 @@ CLAIMS = {
    text="Proof. Theorems (Props/C12.lean) over a transition system whose atomic steps are the mutex sections of work.c and whose wait/signal predicates, idle test, cancel-disable bracket and event "
         "orders are regenerated from work.c/job.c every run - any number of workers and items, every step sequence, spurious wake-ups, deferred cancellation: each wait loop waits exactly while "
         "something is queued or in progress (= negation of the signal predicate); accepted = queued + held + done with each item dequeued once; whenever work_wait / the wait of work_fini(w,1) is "
-        "left nothing is queued or in progress; at cancellation every accepted item is done; no lost wake-up; progress variant. Tie per run: ~17k forced schedules on the real work.c (emulated "
-        "condition variables, no sleeps) line-exact vs model + oracle.",
+        "left nothing is queued or in progress; at cancellation every accepted item is done; no lost wake-up; progress variant. Acceptor side (Props/C12Job.lean over the loop body of job_accept "
+        "translated from job.c every run): EMFILE/ENFILE/ENOBUFS/ENOMEM always wait for the backlog exactly once before the next accept whatever the log rate limiter decides; an accepted connection "
+        "is queued exactly once or released exactly once. Tie per run: ~17k forced schedules on the real work.c (emulated condition variables, no sleeps) line-exact vs model + oracle; the real "
+        "job_accept against ~500 scripted accept()/time()/work-crew outcomes vs the translated kernel + oracle.",
    note=COMMON_NOTE + "pthread mutex/condvar/cancellation semantics as written into the model are assumed; single acceptor thread as in job_accept; liveness is enabledness + variant, not a temporal theorem. Found F3 (fixed).",
    technique="Lean 4 invariant proofs over a transition system with predicates regenerated from the C source + forced-schedule differential correspondence",
    ref="5/C12"),
@@ -207,7 +211,7 @@ CLAIMS = {
         "received only from a complete header+body. Tie per run: the REAL libmunge (munge_encode/munge_decode) against the real _job_exec through an in-process fault-injecting proxy, every class "
         "sequence of 0..5 faults with offsets at message-structure boundaries (thorough: every byte offset), a probe decode after every transaction; toy build byte-exact vs model (outputs, "
         "attempts, retry bytes seen, back-off), OpenSSL build by oracle.",
-   note=COMMON_NOTE + "connect() and sleep failures are not modelled; all attempts of one call share one environment; replies are assumed shorter than 4 GiB.",
+   note=COMMON_NOTE + "connect() refusals (retried inside _m_msg_client_connect) are exercised on the implementation only (stream connect-backoff: same result, connections and retry bytes as without refusals; ten refusals = socket error with nothing sent), the model has no connect step; sleep failures not modelled; all attempts of one call share one environment; replies are assumed shorter than 4 GiB.",
    technique="Lean 4 theorems over fault schedules (client loop regenerated from the C source x daemon model) + differential correspondence through a fault-injecting proxy with the real libmunge",
    ref="5/C13"),
 }
